@@ -48,6 +48,16 @@
   which (since /repo 7262f97 also when `begin > end`) fails for a read that stops
   beyond the view's end: there a logged read beyond `n` ends in the assertion
   handler.  That is observed by the correspondence check, not modelled here.
+
+  Tie to the C++ text: the visitor's own member functions (and `size_bytes_checked`)
+  are written once more at the end of this file, one definition per member
+  function (`Visitor.*`), together with the model of the generated code and the
+  cursor with the callbacks factored out (`Skel.*`).  `extract/methods_checked.py`
+  regenerates the member functions from sbepp.hpp on every run
+  (`Sbepp/Extracted/CheckedVisitor.lean`); `Lemmas/CheckedTie.lean` proves them equal
+  to `Visitor.*` and `Skel.runMsg Visitor.ops = runMsg`, `Skel.runGroup Visitor.ops =
+  runGroup`.  The generated `visit_children`, the cursor accessors and the
+  `cursor_range` loop stay hand-modelled (tied by the differential check).
 -/
 import Sbepp.Schema.Resolve
 import Sbepp.Rt.Walk
@@ -376,5 +386,352 @@ def chkMessage (s : SchemaDef) (md : MessageDef) (m : NMessage) : Option CMsg :=
   | some bl => some { hdrSize := m.hdrSize, blOff := bl.off, blSize := bl.size,
                       level := chkLevel s.types md.fields md.groups m.level }
   | none => none
+
+/-! ## The visitor, member function by member function
+
+The definitions above have the visitor's logic inlined into the recursive model of
+the generated code.  Below the same behaviour is factored the way the C++ is:
+
+* `Visitor.*`: one definition per member function of
+  `sbepp::detail::size_bytes_checked_visitor` (and `sbepp::size_bytes_checked`)
+  in a state monad `VM` over `St`.  Everything the visitor calls in the rest of
+  the system is a field of the `View` / `Header` records it is handed
+  (`sbepp::get_header`, `sbepp::size_bytes`, `*header.blockLength()`,
+  `sbepp::visit_children(x, c, *this)`, `sbepp::visit`, `sbepp::addressof`,
+  `sbepp::init_cursor`, `detail::get_header_size`).
+  `Sbepp.Extracted.Checked` (generated from sbepp.hpp on every run by
+  `extract/methods_checked.py`) contains the same definitions as the C++ text says
+  them now; `Lemmas/CheckedTie.lean` proves `Extracted.Checked.f = Visitor.f`.
+* `Ops` + `Skel.*`: the hand model of the generated `visit_children`, the cursor
+  accessors and the `cursor_range` loop once more, with every callback going
+  through an `Ops` record instead of being inlined.  `Lemmas/CheckedTie.lean`
+  proves `Skel.runMsg Visitor.ops = runMsg` and `Skel.runGroup Visitor.ops = runGroup`,
+  so every theorem about `runMsg` / `runGroup` is a theorem about the skeleton
+  driven by the extracted member functions.
+
+C++ typing: `std::size_t` values are `Nat`s below `2^64`; `sizeSub` / `sizeAdd`
+wrap like `std::size_t` does.
+-/
+namespace Visitor
+
+/-- `a - b` on `std::size_t` operands: wraps modulo `2^64` when `b > a` -/
+def sizeSub (a b : Nat) : Nat := if b ≤ a then a - b else a + 2 ^ 64 - b
+/-- `a + b` on `std::size_t` operands -/
+def sizeAdd (a b : Nat) : Nat := (a + b) % 2 ^ 64
+
+/-- the visitor runs in a state monad over `St` (its data members `size`, `valid`,
+    `group_block_length` are `St.size`, `St.valid`, `St.gbl`) -/
+def VM (α : Type) : Type := St → α × St
+
+instance : Monad VM where
+  pure a := fun s => (a, s)
+  bind m f := fun s => f (m s).1 (m s).2
+
+/-- read a data member -/
+def load {α : Type} (f : St → α) : VM α := fun s => (f s, s)
+/-- write a data member -/
+def store (f : St → St) : VM Unit := fun s => ((), f s)
+
+/-- the `Cursor&` argument (the cursor's pointer is `St.ptr`) -/
+structure Cursor where
+  deriving Inhabited
+/-- a tag argument -/
+structure Tag where
+  deriving Inhabited
+/-- the visitor object: `*this`, the local `visitor` of `size_bytes_checked`, the
+    reference `visit_children` returns (its members live in `St`) -/
+structure Self where
+  deriving Inhabited
+def Self.this : Self := {}
+
+/-- a pointer as far as the visitor looks at it -/
+structure Ptr where
+  off : Option Nat
+  deriving Inhabited
+def Ptr.null : Ptr := ⟨none⟩
+/-- contextual conversion to `bool` -/
+def Ptr.toBool (p : Ptr) : Bool := p.off.isSome
+
+/-- a value wrapper such as `blockLength`; unary `*` is `.value` -/
+structure Num where
+  value : Nat
+  deriving Inhabited
+
+/-- the object `sbepp::get_header(x)` returns -/
+structure Header where
+  /-- `sbepp::size_bytes(header)` -/
+  sizeBytes : VM Nat
+  /-- `header.blockLength()` (a read of the buffer) -/
+  blockLength : VM Num
+
+instance : Inhabited Header := ⟨{ sizeBytes := pure 0, blockLength := pure ⟨0⟩ }⟩
+
+/-- a message / group / entry / data / field view as far as the visitor uses it;
+    the operations that make no sense for a kind of view keep their defaults -/
+structure View where
+  /-- `sbepp::get_header(x)` -/
+  getHeader : VM Header := pure default
+  /-- `sbepp::size_bytes(d)` of a `<data>` view (reads the length prefix) -/
+  sizeBytes : VM Nat := pure 0
+  /-- `sbepp::visit_children(x, c, *this)` -/
+  visitChildren : Cursor → Self → VM Self := fun _ v => pure v
+  /-- `sbepp::addressof(view)` -/
+  addressof : VM Ptr := pure Ptr.null
+  /-- `detail::get_header_size(view)` -/
+  getHeaderSize : VM Nat := pure 0
+  /-- `sbepp::init_cursor(view)` -/
+  initCursor : VM Cursor := pure {}
+  /-- `sbepp::visit(view, c, visitor)` -/
+  visit : Cursor → Self → VM Self := fun _ v => pure v
+
+instance : Inhabited View := ⟨{}⟩
+
+/-- `sbepp::size_bytes_checked_result` -/
+structure SbcResult where
+  valid : Bool
+  size : Nat
+  deriving Repr, DecidableEq, Inhabited
+
+/-- `bool validate_and_subtract(const std::size_t n)` -/
+def validateAndSubtract (n : Nat) : VM Bool := do
+  let size ← load (·.size)
+  if decide (size < n) then
+    store ({ · with valid := false })
+  else
+    let size ← load (·.size)
+    store ({ · with size := sizeSub size n })
+  let valid ← load (·.valid)
+  return valid
+
+/-- `bool is_valid() const` -/
+def isValid : VM Bool := do
+  let valid ← load (·.valid)
+  return valid
+
+/-- `std::size_t get_size() const` -/
+def getSize : VM Nat := do
+  let size ← load (·.size)
+  return size
+
+/-- `std::size_t set_group_block_length(const std::size_t block_length)`: returns the previous value -/
+def setGroupBlockLength (block_length : Nat) : VM Nat := do
+  let prev ← load (·.gbl)
+  store ({ · with gbl := block_length })
+  return prev
+
+/-- `explicit size_bytes_checked_visitor(const std::size_t size) : size{size}`, `valid{true}`,
+    `group_block_length{}` -/
+def ctor (size : Nat) : VM Self := do
+  store ({ · with size := size })
+  store ({ · with valid := true })
+  store ({ · with gbl := 0 })
+  return Self.this
+
+/-- `bool on_field(T, Tag) const` -/
+def onField (_ : View) (_ : Tag) : VM Bool := do
+  return false
+
+/-- `bool on_data(T d, Tag)` -/
+def onData (d : View) (_ : Tag) : VM Bool := do
+  let n ← View.sizeBytes d
+  let ok ← validateAndSubtract n
+  return !ok
+
+/-- `bool on_entry(T e, Cursor& c)` -/
+def onEntry (e : View) (c : Cursor) : VM Bool := do
+  let group_block_length ← load (·.gbl)
+  let ok ← validateAndSubtract group_block_length
+  if !ok then
+    return true
+  let _ ← View.visitChildren e c Self.this
+  let valid ← isValid
+  return !valid
+
+/-- `bool on_group(T g, Cursor& c, Tag)` -/
+def onGroup (g : View) (c : Cursor) (_ : Tag) : VM Bool := do
+  let header ← View.getHeader g
+  let header_size ← Header.sizeBytes header
+  let ok ← validateAndSubtract header_size
+  if !ok then
+    return true
+  let bl ← Header.blockLength header
+  let prev_block_length ← setGroupBlockLength (Num.value bl)
+  let _ ← View.visitChildren g c Self.this
+  let _ ← setGroupBlockLength prev_block_length
+  let valid ← isValid
+  return !valid
+
+/-- `void on_message(T m, Cursor& c, Tag)` -/
+def onMessage (m : View) (c : Cursor) (_ : Tag) : VM Unit := do
+  let header ← View.getHeader m
+  let header_size ← Header.sizeBytes header
+  let ok ← validateAndSubtract header_size
+  if !ok then
+    return ()
+  let bl ← Header.blockLength header
+  let ok ← validateAndSubtract (Num.value bl)
+  if !ok then
+    return ()
+  let _ ← View.visitChildren m c Self.this
+  return ()
+
+/-- `size_bytes_checked_result sbepp::size_bytes_checked(View view, std::size_t size)` -/
+def sizeBytesChecked (view : View) (size : Nat) : VM SbcResult := do
+  let addr ← View.addressof view
+  let reject ← (if !(Ptr.toBool addr) then pure true else do
+    let header_size ← View.getHeaderSize view
+    pure (decide (size < header_size)))
+  if reject then
+    return { valid := false, size := 0 }
+  let visitor ← ctor size
+  let c ← View.initCursor view
+  let _ ← View.visit view c visitor
+  let valid ← isValid
+  if valid then
+    let left ← getSize
+    return { valid := true, size := sizeSub size left }
+  return { valid := false, size := 0 }
+
+/-- what `visit`, the generated `visit_children` and `cursor_range` call on a visitor,
+    and the function that drives them -/
+structure Ops where
+  onMessage : View → Cursor → Tag → VM Unit
+  onGroup : View → Cursor → Tag → VM Bool
+  onEntry : View → Cursor → VM Bool
+  onData : View → Tag → VM Bool
+  onField : View → Tag → VM Bool
+  sizeBytesChecked : View → Nat → VM SbcResult
+
+/-- the hand-written member functions -/
+def ops : Ops :=
+  { onMessage := onMessage, onGroup := onGroup, onEntry := onEntry, onData := onData, onField := onField,
+    sizeBytesChecked := sizeBytesChecked }
+
+end Visitor
+
+/-! ### the generated code and the cursor around an arbitrary visitor -/
+namespace Skel
+open Visitor
+
+/-- one callback invocation: counted, then run; `(state, returned value)` -/
+def callback (m : VM Bool) (s : St) : St × Bool := ((m s.step).2, (m s.step).1)
+
+/-- the view `on_data` receives: `size_bytes(d)` reads the length prefix at `p` again -/
+def dataView (p lenSize sb : Nat) : View :=
+  { sizeBytes := fun s => (sb, s.read .dataLength p lenSize) }
+
+/-- the view `on_entry` receives; its `visit_children` is the entry's generated
+    `visit_children` (the ghost counter `zeroEntries` is updated on the way in) -/
+def entryView (children : St → St × Bool) : View :=
+  { visitChildren := fun _ v s => (v, (children (s.noteZero (s.gbl == 0 && s.valid))).1) }
+
+section
+variable (V : Ops) (bo : ByteOrder) (buf : List Nat) (lim : Option Nat)
+
+/-- `visitFields` with `on_field` as a callback -/
+def fields (start wbl : Nat) (blk : List Access) : List FieldA → St → St × Bool
+  | [], s => (s, false)
+  | f :: fs, s =>
+    let s1 := s.readIf f.isValue .field (start + f.off) f.size
+    let s2 := match fs with
+      | [] => (s1.readAll blk).setPtr (start + wbl)
+      | _ :: _ => s1.setPtr (start + f.off + f.size)
+    let r := callback (V.onField {} {}) s2
+    if r.2 then r else fields start wbl blk fs r.1
+
+/-- `visitDatas` with `on_data` as a callback -/
+def datas (start wbl : Nat) (blk : List Access) : Bool → List DataL → St → St × Bool
+  | _, [], s => (s, false)
+  | first, d :: ds, s =>
+    let s0 := if first then (s.readAll blk).setPtr (start + wbl) else s
+    let p := s0.ptr
+    let sb := dataSizeBytes d.lenSize (rd bo buf p d.lenSize)
+    let s1 := (s0.read .dataLength p d.lenSize).setPtr (p + sb)
+    let r := callback (V.onData (dataView p d.lenSize sb) {}) s1
+    if r.2 then r else datas start wbl blk false ds r.1
+
+/-- `onEntryWith` with `on_entry` as a callback -/
+def entry (emptyCtor : Bool) (children : Nat → Nat → List Access → St → St × Bool) (bl : Nat) (s : St) : St × Bool :=
+  let q := s.ptr
+  let s0 := if emptyCtor then s.setPtr (q + bl) else s
+  callback (V.onEntry (entryView (children q bl [])) {}) s0
+
+/-- the view `on_group` receives for the group whose dimension header is at `p`: the
+    header reads `blockLength`; `visit_children` is the `cursor_range` loop -/
+def groupView (dim : Dim) (p : Nat) (loop : Nat → Nat → St → St) : View :=
+  { getHeader := pure
+      { sizeBytes := pure dim.size,
+        blockLength := fun s => (⟨rd bo buf (p + dim.blOff) dim.blSize⟩, s.read .dimBlockLength (p + dim.blOff) dim.blSize) },
+    visitChildren := fun _ v s =>
+      (v, loop (rd bo buf (p + dim.blOff) dim.blSize) (rd bo buf (p + dim.numOff) dim.numSize)
+        ((s.read .dimBlockLength (p + dim.blOff) dim.blSize).read .dimNumInGroup (p + dim.numOff) dim.numSize)) }
+
+mutual
+  /-- `visitChildren` -/
+  def children : CLevel → Nat → Nat → List Access → St → St × Bool
+    | .mk _ fs gs ds, start, wbl, blk, s =>
+      let r0 := fields V start wbl blk fs s
+      if r0.2 then r0
+      else
+        let r := groups gs start wbl blk true r0.1
+        if r.2 then r else datas V bo buf start wbl blk gs.isEmpty ds r.1
+  /-- `visitGroups` -/
+  def groups : List CGroup → Nat → Nat → List Access → Bool → St → St × Bool
+    | [], _, _, _, _, s => (s, false)
+    | g :: gs, start, wbl, blk, first, s =>
+      let s0 := if first then (s.readAll blk).setPtr (start + wbl) else s
+      let p := s0.ptr
+      let r := group g p (s0.setPtr (p + g.dim.size))
+      if r.2 then r else groups gs start wbl blk false r.1
+  /-- `onGroup` with `on_group` as a callback -/
+  def group : CGroup → Nat → St → St × Bool
+    | .mk dim l, p, s =>
+      callback (V.onGroup (groupView bo buf dim p
+        (fun bl num t => loopE lim (entry V l.emptyCtor (children l) bl) num t)) {} {}) s
+end
+
+/-- the view `on_message` receives -/
+def msgView (m : CMsg) : View :=
+  { getHeader := pure
+      { sizeBytes := pure m.hdrSize,
+        blockLength := fun s => (⟨rd bo buf m.blOff m.blSize⟩, s.read .hdrBlockLength m.blOff m.blSize) },
+    visitChildren := fun _ v s =>
+      (v, (children V bo buf lim m.level m.hdrSize (rd bo buf m.blOff m.blSize)
+        [⟨.hdrBlockLength, m.blOff, m.blSize, 0⟩] s).1) }
+
+/-- the message view `size_bytes_checked` receives (a non-null buffer at offset 0):
+    `init_cursor` points behind the header, `visit` calls `on_message` -/
+def topMsgView (m : CMsg) : View :=
+  { msgView V bo buf lim m with
+    addressof := pure ⟨some 0⟩
+    getHeaderSize := pure m.hdrSize
+    initCursor := fun s => ({}, s.setPtr m.hdrSize)
+    visit := fun c v s => (v, (V.onMessage (msgView V bo buf lim m) c {} s.step).2) }
+
+/-- the group view `size_bytes_checked` receives: dimension header at offset 0,
+    `init_cursor` points behind it, `visit` calls `on_group` -/
+def topGroupView (g : CGroup) : View :=
+  { addressof := pure ⟨some 0⟩
+    getHeaderSize := pure g.dim.size
+    initCursor := fun s => ({}, s.setPtr g.dim.size)
+    visit := fun _ v s => (v, (group V bo buf lim g 0 s).1) }
+
+/-- the state before `size_bytes_checked` constructs the visitor -/
+def blank : St :=
+  { size := 0, valid := false, gbl := 0, ptr := 0, reads := [], steps := 0, zeroEntries := 0, maxPtr := 0, out := false }
+
+/-- returned value + instrumentation -/
+def finish (r : SbcResult × St) : Result :=
+  { valid := r.1.valid, size := r.1.size, reads := r.2.reads, steps := r.2.steps, zeroEntries := r.2.zeroEntries,
+    maxPtr := r.2.maxPtr, out := r.2.out }
+
+/-- `sbepp::size_bytes_checked(message_view, n)` -/
+def runMsg (m : CMsg) (n : Nat) : Result := finish (V.sizeBytesChecked (topMsgView V bo buf lim m) n blank)
+
+/-- `sbepp::size_bytes_checked(group_view, n)` -/
+def runGroup (g : CGroup) (n : Nat) : Result := finish (V.sizeBytesChecked (topGroupView V bo buf lim g) n blank)
+
+end
+end Skel
 
 end Sbepp.Checked
